@@ -34,7 +34,12 @@ func main() {
 	flag.IntVar(&c.Workers, "workers", 0, "")
 	flag.Var(&xs, "x", "extra key=value")
 	replay := flag.String("replay", "", "replay file")
+	solo := flag.String("solo", "", "C19: run one alphabet program alone in this fresh process: <index>,<mode>")
 	flag.Parse()
+	if *solo != "" {
+		fmt.Println(checks.C19Solo(*solo))
+		return
+	}
 	if *replay != "" {
 		b, err := os.ReadFile(*replay)
 		if err != nil {
